@@ -1,4 +1,5 @@
 import Usid.Properties.C01
+import Usid.Proofs.FlattenOne
 /-! C10 — flattening an N-D array back to 2D inverts the N-D reshape.
     Refusal theorems and the inverse law flatten . reshape = id. -/
 namespace Usid.C10
@@ -246,5 +247,173 @@ theorem reshape_of_flatten (nd : NDArr α) (pS pR sS sR : List Nat) (posInds : L
   obtain ⟨r, hr, er⟩ := coords_surj pS pR hP i1 hb1
   obtain ⟨c, hc, ec⟩ := coords_surj sS sR hS i2 hb2
   rw [e, ← er, ← ec, hget' r c hr hc, hRget r c hr hc]
+
+/-! ### one-sided requests: the missing side is taken slowest-to-fastest -/
+
+/-- the heuristic orientation of a tall stored position matrix is its transpose -/
+theorem orient_stored (posInds : List (List Nat)) (g : List (List Nat)) (hpos : transposeM posInds = g)
+    (htall : posInds.length > ncols posInds) : orient posInds = g := by
+  unfold orient; simp [htall, hpos]
+
+/-- **Position matrix only.**  For a regular position grid with more points than dimensions and ANY N-D array
+    of shape `pS ++ sS` whose trailing sizes are all >= 2: `reshape_from_n_dims(nd, h5_pos=...)` succeeds, and
+    the element at (position indices of row r ++ idxS) lands in row r at column `ravelC sS idxS` - the
+    trailing (spectroscopic) axes are flattened in C order, i.e. taken slowest-to-fastest, whatever the
+    storage order of the position dimensions. -/
+theorem flatten_pos_only (nd : NDArr α) (pS pR sS : List Nat) (posInds : List (List Nat))
+    (hP : ValidGrid pS pR) (hkP : pS.length < npoints (sizeFn pS) pR) (hneP : 1 ≤ pS.length)
+    (hneS : sS ≠ []) (hallS : ∀ s ∈ sS, 2 ≤ s)
+    (hpos : transposeM posInds = gridMatrix pS pR)
+    (hrows : posInds.length = npoints (sizeFn pS) pR) (hcols : ncols posInds = pS.length)
+    (hshape : nd.shape = pS ++ sS) :
+    ∃ R, reshapeFromNDimsOne nd posInds false = .ok R ∧ R.shape = [npoints (sizeFn pS) pR, sS.prod] ∧
+      ∀ r idxS, r < npoints (sizeFn pS) pR → InBounds sS idxS →
+        R.get [r, ravelC sS idxS] = nd.get (coords pS pR r (List.range pS.length) ++ idxS) := by
+  have hkP' : pS.length ≤ npoints (sizeFn pS) pR := Nat.le_of_lt hkP
+  have htall : posInds.length > ncols posInds := by rw [hrows, hcols]; exact hkP
+  have hor := orient_stored posInds _ hpos htall
+  have hpermP0 := (order_is_rate pS pR hP hkP').1
+  have hpermP := hpermP0.trans hP.1
+  have hordlen : (getSortOrder (gridMatrix pS pR)).length = pS.length := by rw [hpermP.length_eq, List.length_range]
+  have hso : getSortOrder posInds = getSortOrder (gridMatrix pS pR) := by
+    unfold getSortOrder; rw [hor, gridMatrix_orient pS pR hkP']
+  have hdim : getDimensionality posInds (some (getSortOrder (gridMatrix pS pR))) =
+      .ok ((getSortOrder (gridMatrix pS pR)).map (sizeFn pS)) := by
+    have := dims_along pS pR _ hP hkP' hpermP
+    unfold getDimensionality at this ⊢
+    rw [hor]; rw [gridMatrix_orient pS pR hkP'] at this; exact this
+  have hks : 1 ≤ sS.length := List.length_pos_iff.mpr hneS
+  have hordS : (List.range sS.length).reverse.Perm (List.range sS.length) := List.reverse_perm _
+  obtain ⟨htr, hshT, hflatT, hcore⟩ := transpose_reshape_core nd pS pR sS (List.range sS.length).reverse hP hkP' hordS hshape
+  have hklen : nd.shape.length = pS.length + sS.length := by rw [hshape]; simp
+  -- the dimension sizes found occur in the array shape
+  have hall : ((getSortOrder (gridMatrix pS pR)).map (sizeFn pS)).all (fun x => nd.shape.contains x) = true := by
+    rw [List.all_eq_true]
+    intro x hx
+    obtain ⟨d, hd, rfl⟩ := List.mem_map.mp hx
+    have hdk : d < pS.length := List.mem_range.mp (hpermP.subset hd)
+    rw [hshape]
+    have : sizeFn pS d = pS[d] := by simp [sizeFn, List.getD_eq_getElem?_getD, List.getElem?_eq_getElem hdk]
+    rw [this]
+    simpa using Or.inl (List.getElem_mem hdk)
+  have hdrop : nd.shape.drop ((getSortOrder (gridMatrix pS pR)).map (sizeFn pS)).length = sS := by
+    rw [List.length_map, hordlen, hshape]; simp
+  have hmk := makeIndices_eq_grid sS hneS hallS
+  have hgl : (gridMatrix sS (List.range sS.length)).length = sS.length := by simp [gridMatrix]
+  have hNS : npoints (sizeFn sS) (List.range sS.length) = sS.prod := by
+    unfold npoints; conv => rhs; rw [sizes_eq_map sS]
+  have hm : ((gridMatrix sS (List.range sS.length)).headD []).length = sS.prod := by
+    rw [← hNS]; unfold gridMatrix
+    cases hl : sS.length with
+    | zero => omega
+    | succ n => simp [List.range_succ_eq_map, gridRow]
+  have hsoS := sortOrder_identity sS hallS
+  have hsq : (ncols posInds + (gridMatrix sS (List.range sS.length)).length != nd.shape.length) = false := by
+    rw [hcols, hgl, hklen]; simp
+  refine ⟨(nd.transpose (sigmaOf pS.length (getSortOrder (gridMatrix pS pR)) (List.range sS.length).reverse)
+      (Usid.Translate.inversePerm (pS.length + sS.length)
+        (sigmaOf pS.length (getSortOrder (gridMatrix pS pR)) (List.range sS.length).reverse))).reshape
+      [npoints (sizeFn pS) pR, sS.prod], ?_, rfl, ?_⟩
+  · unfold reshapeFromNDimsOne
+    have h2 : ¬ nd.shape.length < 2 := by rw [hklen]; omega
+    simp only [h2, if_false, bind, Except.bind, pure, Except.pure, hso, hdim, hall, Bool.not_true, Bool.false_eq_true,
+      hdrop, hmk, hsq, Bool.false_and, hpos, hsoS, hm, hrows]
+    have htr' : transposeND nd ((getSortOrder (gridMatrix pS pR)).reverse ++
+        (List.range sS.length).reverse.reverse.map (fun x => x + (getSortOrder (gridMatrix pS pR)).length)) =
+        .ok (nd.transpose (sigmaOf pS.length (getSortOrder (gridMatrix pS pR)) (List.range sS.length).reverse)
+          (Usid.Translate.inversePerm (pS.length + sS.length)
+            (sigmaOf pS.length (getSortOrder (gridMatrix pS pR)) (List.range sS.length).reverse))) := by
+      rw [hordlen]; exact htr
+    rw [htr']
+    simp only [reshapeND, hflatT, List.prod_cons, List.prod_nil, Nat.mul_one, bne_self_eq_false, Bool.false_eq_true, if_false]
+  · intro r idxS hr hbS
+    have := hcore r idxS hr hbS
+    have hlenS := Usid.Translate.inBounds_length sS idxS hbS
+    -- ravelling along the identity arrangement is the plain C-order flat index
+    have e1 : (List.range sS.length).reverse.reverse.map (fun d => sS.getD d 1) = sS := by
+      rw [List.reverse_reverse]; exact (sizes_eq_map sS).symm
+    have e2 : (List.range sS.length).reverse.reverse.map (fun d => idxS.getD d 0) = idxS := by
+      rw [List.reverse_reverse, hlenS]
+      apply List.ext_getElem
+      · simp
+      · intro i h1 h2; simp [List.getD_eq_getElem?_getD, List.getElem?_eq_getElem h2]
+    rw [e1, e2] at this
+    exact this
+
+/-- **Spectroscopic matrix only.**  The mirror image: for a regular spectroscopic grid (at most as many
+    dimensions as points) and ANY N-D array of shape `pS ++ sS` whose leading sizes are all >= 2:
+    `reshape_from_n_dims(nd, h5_spec=...)` succeeds, and the element at (idxP ++ spectroscopic indices of
+    column c) lands in column c at row `ravelC pS idxP` - the leading (position) axes are flattened in C order. -/
+theorem flatten_spec_only (nd : NDArr α) (pS sS sR : List Nat)
+    (hS : ValidGrid sS sR) (hkS : sS.length ≤ npoints (sizeFn sS) sR) (hneS : 1 ≤ sS.length)
+    (hneP : pS ≠ []) (hallP : ∀ s ∈ pS, 2 ≤ s) (hshape : nd.shape = pS ++ sS) :
+    ∃ R, reshapeFromNDimsOne nd (gridMatrix sS sR) true = .ok R ∧ R.shape = [pS.prod, npoints (sizeFn sS) sR] ∧
+      ∀ c idxP, c < npoints (sizeFn sS) sR → InBounds pS idxP →
+        R.get [ravelC pS idxP, c] = nd.get (idxP ++ coords sS sR c (List.range sS.length)) := by
+  have hpermS0 := (order_is_rate sS sR hS hkS).1
+  have hpermS := hpermS0.trans hS.1
+  have hordlenS : (getSortOrder (gridMatrix sS sR)).length = sS.length := by rw [hpermS.length_eq, List.length_range]
+  have hdim := dims_along sS sR _ hS hkS hpermS
+  have hkp : 1 ≤ pS.length := List.length_pos_iff.mpr hneP
+  have hordP : (List.range pS.length).reverse.Perm (List.range pS.length) := List.reverse_perm _
+  obtain ⟨htr, hflatT, hcore⟩ := transpose_reshape_core_spec nd pS (List.range pS.length).reverse sS sR hS hkS hordP hshape
+  have hklen : nd.shape.length = pS.length + sS.length := by rw [hshape]; simp
+  have hall : ((getSortOrder (gridMatrix sS sR)).map (sizeFn sS)).all (fun x => nd.shape.contains x) = true := by
+    rw [List.all_eq_true]
+    intro x hx
+    obtain ⟨d, hd, rfl⟩ := List.mem_map.mp hx
+    have hdk : d < sS.length := List.mem_range.mp (hpermS.subset hd)
+    rw [hshape]
+    have : sizeFn sS d = sS[d] := by simp [sizeFn, List.getD_eq_getElem?_getD, List.getElem?_eq_getElem hdk]
+    rw [this]
+    simpa using Or.inr (List.getElem_mem hdk)
+  have htake : nd.shape.take (nd.shape.length - ((getSortOrder (gridMatrix sS sR)).map (sizeFn sS)).length) = pS := by
+    rw [List.length_map, hordlenS, hklen, hshape]; simp
+  have hmk := makeIndices_eq_grid pS hneP hallP
+  have hgl : (gridMatrix pS (List.range pS.length)).length = pS.length := by simp [gridMatrix]
+  have hglS : (gridMatrix sS sR).length = sS.length := by simp [gridMatrix]
+  have hNP : npoints (sizeFn pS) (List.range pS.length) = pS.prod := by
+    unfold npoints; conv => rhs; rw [sizes_eq_map pS]
+  have hn : ((gridMatrix pS (List.range pS.length)).headD []).length = pS.prod := by
+    rw [← hNP]; unfold gridMatrix
+    cases hl : pS.length with
+    | zero => omega
+    | succ n => simp [List.range_succ_eq_map, gridRow]
+  have hm : ncols (gridMatrix sS sR) = npoints (sizeFn sS) sR := by
+    unfold ncols gridMatrix
+    cases hl : sS.length with
+    | zero => omega
+    | succ n => simp [List.range_succ_eq_map, gridRow]
+  have hsoP := sortOrder_identity pS hallP
+  have hsq : ((gridMatrix pS (List.range pS.length)).length + (gridMatrix sS sR).length != nd.shape.length) = false := by
+    rw [hgl, hglS, hklen]; simp
+  refine ⟨(nd.transpose (sigmaOf pS.length (List.range pS.length).reverse (getSortOrder (gridMatrix sS sR)))
+      (Usid.Translate.inversePerm (pS.length + sS.length)
+        (sigmaOf pS.length (List.range pS.length).reverse (getSortOrder (gridMatrix sS sR))))).reshape
+      [pS.prod, npoints (sizeFn sS) sR], ?_, rfl, ?_⟩
+  · unfold reshapeFromNDimsOne
+    have h2 : ¬ nd.shape.length < 2 := by rw [hklen]; omega
+    simp only [h2, if_false, bind, Except.bind, pure, Except.pure, hdim, hall, Bool.not_true, Bool.false_eq_true,
+      htake, hmk, hsq, Bool.false_and, hsoP, hn, hm, if_true]
+    have htr' : transposeND nd ((List.range pS.length).reverse.reverse ++
+        (getSortOrder (gridMatrix sS sR)).reverse.map (fun x => x + (List.range pS.length).reverse.length)) =
+        .ok (nd.transpose (sigmaOf pS.length (List.range pS.length).reverse (getSortOrder (gridMatrix sS sR)))
+          (Usid.Translate.inversePerm (pS.length + sS.length)
+            (sigmaOf pS.length (List.range pS.length).reverse (getSortOrder (gridMatrix sS sR))))) := by
+      rw [List.length_reverse, List.length_range]; exact htr
+    rw [htr']
+    simp only [reshapeND, hflatT, List.prod_cons, List.prod_nil, Nat.mul_one, bne_self_eq_false, Bool.false_eq_true, if_false]
+  · intro c idxP hc hbP
+    have := hcore c idxP hc hbP
+    have hlenP := Usid.Translate.inBounds_length pS idxP hbP
+    have e1 : (List.range pS.length).reverse.reverse.map (fun d => pS.getD d 1) = pS := by
+      rw [List.reverse_reverse]; exact (sizes_eq_map pS).symm
+    have e2 : (List.range pS.length).reverse.reverse.map (fun d => idxP.getD d 0) = idxP := by
+      rw [List.reverse_reverse, hlenP]
+      apply List.ext_getElem
+      · simp
+      · intro i h1 h2; simp [List.getD_eq_getElem?_getD, List.getElem?_eq_getElem h2]
+    rw [e1, e2] at this
+    exact this
 
 end Usid.C10
